@@ -24,7 +24,8 @@ def gen_loops(rng, n):
     # deterministic part: every terminator once, the boundary exit codes
     base = [(["exit:0"], False), (["exit:1"], False), (["kill:TERM"], False), (["exit:2", "exit:0"], False),
             (["exit:255", "exit:1"], False), (["kill:KILL", "kill:TERM"], False), (["wait"], True),
-            (["exit:3", "kill:SEGV", "wait"], True)]
+            (["exit:3", "kill:SEGV", "wait"], True), (["waitexit:3"], True), (["waitexit:255"], True),
+            (["waitkill:9"], True), (["exit:2", "waitexit:2"], True), (["waitexit:1"], True)]
     for s, t in base:
         loops.append({"script": numeric(s), "sigterm": t})
     while len(loops) < n:
@@ -35,9 +36,10 @@ def gen_loops(rng, n):
                 script.append("exit:%d" % rng.randint(2, 255))
             else:
                 script.append("kill:" + rng.choice(ABNORMAL_SIGS))
-        term = rng.choice(["exit:0", "exit:1", "kill:TERM", "wait"])
+        term = rng.choice(["exit:0", "exit:1", "kill:TERM", "wait", "waitexit:%d" % rng.choice([0, 1, 2, 3, 139, 255]),
+                           "waitkill:%d" % rng.choice([9, 11, 6])])
         script.append(term)
-        loops.append({"script": numeric(script), "sigterm": term == "wait"})
+        loops.append({"script": numeric(script), "sigterm": term.startswith("wait")})
     return loops
 
 
@@ -51,8 +53,8 @@ def step_to_coq(st):
         return "ItTerm (Exit %s)" % cN(int(st[5:]))
     if st.startswith("kill:"):
         return "ItTerm (Killed %s false)" % cN(int(st[5:]))
-    if st == "wait":
-        return "ItSigterm"
+    if st.startswith("wait"):
+        return "ItSigterm"      # however the worker ends after the stop request, supervision is over
     raise ValueError(st)
 
 
